@@ -125,6 +125,7 @@ class Engine:
         s.max_states = 64
         from . import models_std, models_na
         models_std.install(s); models_na.install(s)
+        from . import models_extra; models_extra.install(s)
 
     # ---------- registry ----------
     def model(s, pattern, handler, front=False):
@@ -1006,7 +1007,18 @@ def build_aliases(bodies, repo='/repo'):
             except OSError: continue
         text = src_cache[file][line - 1][col - 1:]
         mi = re.match(r'^impl(?:<[^>]*>)?\s+(?:([\w:]+)(?:<[^>]*>)?\s+for\s+)?([\w:]+)', text)
-        if not mi: continue
+        if not mi:
+            # #[derive(Trait, ...)]: the span points at the trait name inside the attribute; the type is the struct/enum declared below it
+            md = re.match(r'^(\w+)', text)
+            if md and '#[derive(' in src_cache[file][line - 1]:
+                ty = None
+                for l2 in src_cache[file][line:line + 12]:
+                    mt = re.match(r'^\s*(?:pub(?:\([^)]*\))?\s+)?(?:struct|enum)\s+(\w+)', l2)
+                    if mt: ty = mt.group(1); break
+                if ty:
+                    alias.setdefault(f'{mod}{ty}::{rest}', name)
+                    alias.setdefault((f'{mod}{ty}', md.group(1), rest), name)
+            continue
         trait, ty = mi.group(1), mi.group(2)
         ty = ty.split('::')[-1]
         alias.setdefault(f'{mod}{ty}::{rest}', name)
